@@ -12,15 +12,15 @@ import (
 type c01K struct {
 	out   []c01Prog
 	level int
+	count map[string]int
 }
 
 func (k *c01K) add(fam, desc, src string, globals ...string) {
-	n := 0
-	for _, p := range k.out {
-		if p.Family == fam {
-			n++
-		}
+	if k.count == nil {
+		k.count = map[string]int{}
 	}
+	n := k.count[fam]
+	k.count[fam]++
 	k.out = append(k.out, c01Prog{Family: fam, Index: n, Desc: desc, Src: src, Globals: globals, Generic: fam == "K:generics"})
 }
 
@@ -63,6 +63,7 @@ func c01EnumerateK(level int) []c01Prog {
 	k.rangeSlice()
 	k.rangeString()
 	k.rangeFunc()
+	k.rangeFuncNest()
 	k.deferRecover()
 	k.multiRet()
 	k.methods()
